@@ -110,4 +110,12 @@ PROPS = {
             {"name": "TestC05B", "quick": 400, "thorough": 8000, "shards_quick": 4},
         ],
     },
+    "C09": {
+        "level": "exploration",
+        "tests": [
+            {"name": "TestC09", "quick": 600, "thorough": 30000, "shards_quick": 10},
+            {"name": "TestC09Race", "quick": 120, "thorough": 2000, "race": True, "shards_quick": 6},
+            {"name": "TestC09Exhaustive", "kind": "plain", "quick": 1, "thorough": 1, "tiers": ("thorough",), "shards_thorough": 12},
+        ],
+    },
 }
